@@ -48,6 +48,12 @@ def gen_cases(tier, seed):
                                             "ArrayToBlocks", "BlocksToArray", "Resize", "FiniteDifference", "Wavelet"})[::17]:
         for form in ("list", "npint", "range"):
             cases.append(dict(kind="argform", spec=s, form=form))
+    # the operator after its user overwrote, in place, the array it was built from (alternating schemes update a matrix or
+    # a weight map between solves): A, A.H and A.N - also the ones obtained BEFORE the overwrite - must describe one
+    # and the same operator.  Only for the operators that hold a plain reference to the caller's array.
+    for s in opcat.leaf_specs(tier, classes={"Multiply", "MatMul", "RightMatMul"})[::3]:
+        if "mshape" in s or "mshape" in s.get("mult", {}):
+            cases.append(dict(kind="captured-overwritten", spec=s))
     if tier == "quick":
         for t in programs.trees(programs.SUB5, 2, all_axes=False, scalars=programs.SCALARS[:2]):
             cases.append(dict(kind="tree", spec=t))
@@ -166,9 +172,44 @@ def run_argform(case, seed):
     return dict(states=2, transitions=3 * M0.shape[1], nontrivial=True, outcome="ok" if not viol else "violation:argument-form", viol=viol)
 
 
+def run_captured_overwritten(case, seed):
+    spec = programs.strip(case["spec"])
+    viol = []
+    del opcat.CREATED[:]
+    A = opcat.build(spec, seed)
+    created = [a for a, _ in opcat.CREATED if isinstance(a, np.ndarray) and a.flags.writeable and np.issubdtype(a.dtype, np.inexact)]
+    if not created:
+        return dict(states=1, transitions=1, nontrivial=False, outcome="no-captured-float-array", viol=[])
+    AH, AN = A.H, A.N          # obtained before the overwrite (and memoised on A)
+    M0 = dense.dense_linop(A)
+    for a in created:
+        a[...] = (-0.5 * a + 0.25).astype(a.dtype)
+    M1 = dense.dense_linop(A)
+    follows = not np.allclose(M1, M0)
+    trans = 2 * M0.shape[1]
+    for label, op, ref in (("A.H obtained before the overwrite", AH, M1.conj().T), ("A.H read again", A.H, M1.conj().T),
+                           ("A.N obtained before the overwrite", AN, M1.conj().T @ M1), ("A.N read again", A.N, M1.conj().T @ M1),
+                           ("A.H.H", A.H.H, M1)):
+        try:
+            e = dense.relerr(dense.dense_linop(op), ref)
+        except dense.ShapeError as ex:
+            e = float("inf")
+        trans += ref.shape[1]
+        if not e <= TOL:
+            viol.append(dict(oracle="consistent-after-overwrite", key=dict(site=spec["op"], when="captured array overwritten in place"),
+                             detail="after the array the operator was built from was overwritten in place, %s differs from what "
+                                    "A itself now does by %.3g (A %s the overwrite)" % (label, e, "follows" if follows else "ignores"),
+                             python="vf.opcat.build(%r)" % (spec,)))
+            break
+    return dict(states=2, transitions=trans, nontrivial=bool(follows),
+                outcome=("ok/follows" if follows else "ok/snapshot") if not viol else "violation:consistent-after-overwrite", viol=viol)
+
+
 def run_case(case, seed):
     if case["kind"] == "argform":
         return run_argform(case, seed)
+    if case["kind"] == "captured-overwritten":
+        return run_captured_overwritten(case, seed)
     spec = programs.strip(case["spec"])
     site = spec["op"]
     when = classify(spec)
